@@ -80,6 +80,32 @@ theorem scc_iff (g : Graph) (hwf : g.wfb = true) (cs : List (List Nat)) (h : all
   ⟨fun ⟨c, hc, hu, hv⟩ => scc_sound g hwf cs h c hc u v hu hv,
    fun ⟨h1, h2⟩ => scc_complete_exists g hwf cs h u v hun h1 h2⟩
 
+/-! ### the two searches on their own (white-path theorem) -/
+
+/-- `depth_first_search` from a vertex `v`, with `vis` already visited: it returns, pushes a repetition-free
+block `new` on the stack, adds exactly that block to the visited set, and the block holds exactly the
+vertices reachable from `v` along edges by a walk that avoids `vis` -/
+theorem dfs_white_path (g : Graph) (hwf : g.wfb = true) (v : Nat) (hv : v < g.n) (vis st : List Nat) :
+    ∃ new vis', dfs g g.fuel v (vis, st) = .ok (vis', new ++ st) ∧ new.Nodup ∧
+      (∀ x, x ∈ vis' ↔ (x ∈ vis ∨ x ∈ new)) ∧
+      ∀ y, y ∈ new ↔ RA g.Edge (fun u => u ∈ vis) v y := by
+  obtain ⟨new, vis', h1, h2, h3⟩ := (g.wf_of_wfb hwf).dfs_ok g.fuel v vis st hv (fuel_ge g vis)
+  refine ⟨new, vis', h1, h3.nodup, h2, fun y => ?_⟩
+  rw [h3.reach y]
+  simp
+
+/-- `reverse_depth_first_search`: the same along reversed edges — the block holds exactly the vertices
+from which `v` can be reached by a walk that avoids `vis` -/
+theorem rdfs_white_path (g : Graph) (hwf : g.wfb = true) (v : Nat) (hv : v < g.n) (vis st : List Nat) :
+    ∃ new vis', rdfs g g.fuel v (vis, st) = .ok (vis', new ++ st) ∧ new.Nodup ∧
+      (∀ x, x ∈ vis' ↔ (x ∈ vis ∨ x ∈ new)) ∧
+      ∀ y, y ∈ new ↔ RA g.Edge (fun u => u ∈ vis) y v := by
+  obtain ⟨new, vis', h1, h2, h3⟩ := (g.wf_of_wfb hwf).rdfs_ok g.fuel v vis st hv (fuel_ge g vis)
+  refine ⟨new, vis', h1, h3.nodup, h2, fun y => ?_⟩
+  rw [h3.reach y]
+  simp only [List.mem_singleton, exists_eq_left]
+  exact ⟨fun h => h.flip, fun h => h.flip⟩
+
 /-! ### the largest component -/
 
 /-- the reported largest component is at least as long as every component, and it is one of them
